@@ -197,6 +197,7 @@ class BubblePoint:
     
     def __call__(self, z, *, T=None, P=None, liquid_conversion=None):
         z = np.asarray(z, float)
+        z = z / z.sum()
         if T:
             if P: raise ValueError("may specify either T or P, not both")
             P, *args = self.solve_Py(z, T, liquid_conversion)
